@@ -122,11 +122,11 @@ pub fn strategy(maxdim: usize) -> BoxedStrategy<Mat> {
             };
             (m, Just((r, n)))
         })
-        .prop_map(|(d, (r, n))| {
+        .prop_flat_map(|(d, (r, n))| {
             let mut m = Mat::from_dense(&d);
             m.rows = r;
             m.cols = n;
-            m
+            shuffled(Just(m))
         })
         .boxed()
 }
